@@ -39,6 +39,7 @@ mutual
     | .switchS e cs => .id b!"switch" :: .p b!"(" :: (tk e ++ .p b!")" :: .p b!"{" :: (tkCs cs ++ [.p b!"}"]))
     | .ret e => .id b!"return" :: (tk e ++ [.p b!";"])
     | .brk => [.id b!"break", .p b!";"]
+    | .dbg => [.id b!"debugger", .p b!";"]
   def tkSs : PStmts → List Tok
     | .nil => []
     | .cons s r => tkS s ++ tkSs r
@@ -76,6 +77,7 @@ mutual
     | .switchS e cs => Wf e ∧ WfCs cs
     | .ret e => Wf e
     | .brk => True
+    | .dbg => True
   def WfSs : PStmts → Prop
     | .nil => True
     | .cons s r => WfS s ∧ WfSs r
@@ -171,14 +173,14 @@ theorem eat_cons (s s' : Bytes) (r : List Tok) : eat s (.p s' :: r) = if s' = s 
 /-- the words a statement of the grammar begins with (or is continued by) -/
 def isStmtKw (s : Bytes) : Bool :=
   s == b!"var" || s == b!"if" || s == b!"for" || s == b!"switch" || s == b!"return" || s == b!"break" ||
-    s == b!"case" || s == b!"default" || s == b!"else"
+    s == b!"case" || s == b!"default" || s == b!"else" || s == b!"debugger"
 
 theorem stmtKw_reserved {s : Bytes} (h : isReserved s = false) : isStmtKw s = false := by
   cases hk : isStmtKw s with
   | false => rfl
   | true =>
     simp only [isStmtKw, Bool.or_eq_true, beq_iff_eq] at hk
-    rcases hk with (((((((h1 | h1) | h1) | h1) | h1) | h1) | h1) | h1) | h1 <;> subst h1 <;> revert h <;> decide
+    rcases hk with ((((((((h1 | h1) | h1) | h1) | h1) | h1) | h1) | h1) | h1) | h1 <;> subst h1 <;> revert h <;> decide
 
 theorem headTok_idok : ∀ (p : PE), Wf p → ∀ s, headTok p = .id s → isStmtKw s = false
   | .ident s, w, s', h => by simp only [headTok, Tok.id.injEq] at h; subst h; exact stmtKw_reserved w
@@ -205,7 +207,7 @@ theorem headTok_idok : ∀ (p : PE), Wf p → ∀ s, headTok p = .id s → isStm
 theorem expr_dispatch (e : PE) (w : Wf e) (hb : headTok e ≠ .p b!"{") (rest : List Tok) :
     eat b!"{" (tk e ++ rest) = none ∧ eatId b!"var" (tk e ++ rest) = none ∧ eatId b!"if" (tk e ++ rest) = none ∧
     eatId b!"for" (tk e ++ rest) = none ∧ eatId b!"switch" (tk e ++ rest) = none ∧ eatId b!"return" (tk e ++ rest) = none ∧
-    eatId b!"break" (tk e ++ rest) = none ∧ stmtsEnd (tk e ++ rest) = false := by
+    eatId b!"break" (tk e ++ rest) = none ∧ eatId b!"debugger" (tk e ++ rest) = none ∧ stmtsEnd (tk e ++ rest) = false := by
   obtain ⟨r, hr⟩ := tk_head e
   have hk := headTok_idok e w
   have hs := headTok_estart e w
@@ -264,6 +266,7 @@ theorem tkS_pos : ∀ s : PS, 0 < (tkS s).length
   | .switchS _ _ => by simp [tkS]
   | .ret _ => by simp [tkS]
   | .brk => by simp [tkS]
+  | .dbg => by simp [tkS]
 
 /-- a statement begins neither with `}` / `case` / `default` nor with `else` -/
 theorem stmt_start (s : PS) (w : WfS s) (x : List Tok) : stmtsEnd (tkS s ++ x) = false ∧ NoElse (tkS s ++ x) := by
@@ -272,7 +275,7 @@ theorem stmt_start (s : PS) (w : WfS s) (x : List Tok) : stmtsEnd (tkS s ++ x) =
     simp only [WfS] at w
     have := expr_dispatch e w.1 w.2 ([.p b!";"] ++ x)
     simp only [tkS, List.append_assoc]
-    refine ⟨this.2.2.2.2.2.2.2, ?_⟩
+    refine ⟨this.2.2.2.2.2.2.2.2, ?_⟩
     obtain ⟨r, hr⟩ := tk_head e
     unfold NoElse
     rw [hr]
@@ -301,10 +304,10 @@ mutual
       | zero => omega
       | succ n =>
         simp only [WfS] at w
-        obtain ⟨h1, h2, h3, h4, h5, h6, h7, _⟩ := expr_dispatch e w.1 w.2 ([.p b!";"] ++ rest)
+        obtain ⟨h1, h2, h3, h4, h5, h6, h7, h8, _⟩ := expr_dispatch e w.1 w.2 ([.p b!";"] ++ rest)
         unfold stmtN
-        simp only [tkS, List.append_assoc] at h1 h2 h3 h4 h5 h6 h7 ⊢
-        rw [h1, h2, h3, h4, h5, h6, h7]
+        simp only [tkS, List.append_assoc] at h1 h2 h3 h4 h5 h6 h7 h8 ⊢
+        rw [h1, h2, h3, h4, h5, h6, h7, h8]
         simp only [List.cons_append, List.nil_append]
         rw [exprP_rt e w.1 _ (after_p rfl _ _)]
         simp
@@ -389,6 +392,12 @@ mutual
         rw [exprP_rt e w _ (after_p rfl _ _)]
         simp
     | .brk, _, n, hn, rest, _ => by
+      cases n with
+      | zero => omega
+      | succ n =>
+        unfold stmtN
+        simp [tkS, eatId_cons]
+    | .dbg, _, n, hn, rest, _ => by
       cases n with
       | zero => omega
       | succ n =>
